@@ -146,6 +146,15 @@ func genC12(r *Rng, tier string) []*Case {
 			next++
 			return c12Op{Op: "new", M: &m}
 		}
+		if r.Chance(8) {
+			// a matrix born 0x0 (as the servers create their collections), grown by a merge, swapped out and
+			// dropped: the collector must release its mapping like any other matrix's
+			z := Mat{}
+			m := randMat(r, 1+r.Intn(5), 1+r.Intn(5), r.Pick(60, 100), 0)
+			in.Ops = append(in.Ops, c12Op{Op: "new", M: &z}, c12Op{Op: "new", M: &m},
+				c12Op{Op: "merge", H: 0, H2: 1}, c12Op{Op: "mmap", H: 0}, c12Op{Op: "drop", H: 0})
+			alive, next = []int{1}, 2
+		}
 		for len(in.Ops) < n {
 			if len(alive) == 0 || (len(alive) < 5 && r.Chance(12)) {
 				in.Ops = append(in.Ops, newOp())
